@@ -768,6 +768,10 @@ class StretchyTreeMatcher:
             # the children noting the special case when the nodes of the array are actually parameters of the node
             # (e.g. a load function) instead of a child node
             if not ignore_field:
+                if len(ins_value) != len(std_value) and any(is_primitive(v) for v in ins_value + std_value):
+                    # Child nodes are matched (stretchily) elsewhere, but a list of plain values, like the names
+                    # of a `global` statement, is content: `global a, b` is not `global a`
+                    is_match = False
                 for inssub_value, stdsub_value in zip(ins_value, std_value):
                     if not is_match:
                         break
